@@ -474,7 +474,56 @@ def r14(ctx):
         ctx.ob('C03.R14', f, i['init'], active == rv[0], 'initial master count', 'an active handler starts with %s, clear() resets to %s' % (active, rv[0]))
 
 
+def r17(ctx):
+    ctx.rule('C03.R17', 'after a lost arbitration the full lock counter applies exactly when the winner belongs to another priority '
+             'class, and the class of an address is its low nibble: the condition under which handleReceive loads '
+             'm_remainLockCount with m_lockCount, evaluated for all 25 x 25 pairs of master addresses (with a lock count above '
+             'the short wait), is true exactly for the pairs whose low nibbles differ', minimum=1)
+    import tinyeval
+    import rules.C19 as c19
+    fb = ctx.fb
+    fn = fb.fn(A.HR)
+    ctx.touch(fn)
+    loads = [nid for nid, d, rhs, op, lhs in fn.assignments() if d == 'this.m_remainLockCount' and op == '=' and rhs is not None and
+             fn.key(rhs) == 'this.m_lockCount']
+    if not loads:
+        raise AnalysisBroken('C03.R17: m_remainLockCount = m_lockCount not found in handleReceive')
+    masters = [a for a in range(256) if (a & 0x0f) in (0, 1, 3, 7, 15) and (a >> 4) in (0, 1, 3, 7, 15)]
+    n = 0
+    for ld in loads:
+        p = fn.parent(ld)
+        cond = None
+        while p is not None:
+            if fn.nodes[p]['k'] == 'IfStmt' and fn.nodes[p].get('then') is not None and ld in set(fn.walk(fn.nodes[p]['then'])):
+                cond = fn.nodes[p]['cond']
+                break
+            p = fn.parent(p)
+        if cond is None:
+            continue
+        locs = sorted(set(fn.nodes[x]['decl'] for x in fn.walk(cond) if fn.nodes[x]['k'] == 'DeclRefExpr' and
+                          fn.nodes[x].get('rk') in ('local', 'param') and (fn.nodes[x].get('w') == 8)))
+        if len(locs) != 2:
+            continue
+        n += 1
+        bad = []
+        try:
+            for a in masters:
+                for b in masters:
+                    m = tinyeval.Machine(fn, {'m_lockCount': 5, 'm_remainLockCount': 2}, [])
+                    m.locals[locs[0]] = a
+                    m.locals[locs[1]] = b
+                    got = bool(m.rv(cond))
+                    if got != ((a & 0x0f) != (b & 0x0f)) and len(bad) < 3:
+                        bad.append('%02x against %02x: %s' % (a, b, 'full lock count' if got else 'short wait'))
+        except tinyeval.Unknown as e:
+            raise AnalysisBroken('C03.R17: priority class condition not evaluable (%s)' % e)
+        ctx.ob('C03.R17', fn, ld, not bad, 'priority class comparison', '; '.join(bad) or 'true exactly for differing low nibbles (625 pairs)')
+    if n < 1:
+        raise AnalysisBroken('C03.R17: condition of the lock counter load not recognised')
+
+
 def run(ctx):
+    r17(ctx)
     r14(ctx)
     initial_state_rule(ctx, 'C03.R15')
     r1(ctx)
@@ -499,3 +548,9 @@ def run(ctx):
                'the arbitration result of the enhanced device (STARTED/FAILED) must reach the protocol handler: a result that '
                'is deferred behind a received symbol has to stay in the buffer, or a lost arbitration is never seen and ebusd '
                'sends on')
+    import rules.C11 as _c11
+    ctx.borrow(_c11.r4, {'C11.R4': 'C03.R16'},
+               'the AUTO-SYN interval and the source restriction of answers are computed from the master number of an '
+               'address: the number must be the position of the address among the 25 masters')
+    import rules.C14 as _c14
+    _c14.clock_rule(ctx, 'C03.R18')
